@@ -9,6 +9,7 @@ E1_NOTE = ("Sequentially consistent interleavings at the granularity of the hook
 checks = {
  "C01": ("mcx", "E1: every schedule (deviation-bounded DFS under a controlled scheduler) of 1-3 producers x 1-2 polled streams on the five real Uni channels, all send entry points, BUFFER 2/4; oracle: multiset delivered == multiset accepted, rejection contract, pending count", "§4 C01", "stateless deviation-bounded DFS over thread schedules of the real code + exactly-once oracle"),
  "C02": ("mcx", "E1: same executions plus the four raw rings; oracle: brute-force linearizability against a bounded FIFO, permissive interval rule for 'full' answers, length range", "§4 C02", "stateless deviation-bounded DFS over thread schedules + Wing-Gong linearizability search"),
+ "C03": ("mcx", "E1: every schedule of 1-3 producers x 1-2 independently polled listeners (fixed listener set, dense and non-dense stream ids) on the six real Multi channels, all implemented send entry points, fewer events than BUFFER; oracle per listener: exactly-once, per-producer order, nothing alien; across listeners: same allocation per event, distinct storage for events held simultaneously", "§4 C03", "stateless deviation-bounded DFS over thread schedules of the real code + per-listener exactly-once/order oracle"),
  "C04": ("mcx", "E1: every schedule of producers against *driven* (park/unpark) streams for the 11 channel kinds x entry points x MAX_STREAMS x streams created; oracle: no accepted event pending when all producers returned and all streams are parked", "§4 C04", "stateless deviation-bounded DFS over thread schedules + quiescence oracle"),
  "C18": ("mcx", "E1: every schedule of 2-4 threads x 2-3 operations on the four stand-alone containers (capacity 2/4, prefilled 0-2); oracle: strict linearizability against a bounded LIFO / FIFO including 'full' and 'empty' answers", "§4 C18", "stateless deviation-bounded DFS over thread schedules + Wing-Gong linearizability search"),
 }
